@@ -1,4 +1,5 @@
 mod alloc;
+mod amplify;
 mod build;
 mod dbg;
 mod domain;
@@ -104,6 +105,22 @@ fn main() {
             drop(out);
             w.flush().unwrap();
             println!("{{\"cases\":{},\"events\":{},\"panics\":{},\"phases\":[{},{},{},{}]}}", total, n, panics, phases[0], phases[1], phases[2], phases[3]);
+        }
+        "amplify-run" => {
+            // amplify-run <trace.ndjson> <T,K,avc|hevc> [...]
+            robust::start_watchdog(format!("{}.hang", a[2]));
+            let mut w = BufWriter::new(File::create(&a[2]).unwrap());
+            let mut out = mux::Out { w: &mut w, events: 0 };
+            for (i, tk) in a[3..].iter().enumerate() {
+                let parts: Vec<&str> = tk.split(',').collect();
+                let t = parts.first().and_then(|x| x.parse::<u32>().ok()).unwrap_or(1);
+                let k = parts.get(1).and_then(|x| x.parse::<u32>().ok()).unwrap_or(1);
+                amplify::run(t, k, parts.get(2) == Some(&"avc"), i as u64, &mut out);
+            }
+            let n = out.events;
+            drop(out);
+            w.flush().unwrap();
+            println!("{{\"events\":{}}}", n);
         }
         "fault-run" => {
             let cases = read_cases(&a[2]);
